@@ -384,6 +384,9 @@ func (r *rig) actors() []gx.Actor {
 			acts = append(acts, do("mark", cur-1))
 		}
 		acts = append(acts, do("reset", cur))
+		if cur >= 2 {
+			acts = append(acts, do("reset", 0)) // back to the very beginning (with constant metadata: the all-zero pair)
+		}
 	}
 	if !p.Auto && !r.commitRunning && (r.c.HaltAfterPrefix || r.c.Trailing("commit") < 1) {
 		acts = append(acts, gx.Actor{Label: "commit", Rank: 2, Variants: []gx.Variant{{Do: func() {
